@@ -816,6 +816,35 @@ def cases(rng, tier):
              "max": rng.choice([1, 2, 7, 50]), "rs": []}
         c["ops"] = _ops(c)
         yield c
+    # legal but huge penalties: partial scores far below -2**30 while everything still fits int32 (the pseudo -inf of
+    # the affine tables must stay below every reachable score); one long sequence against a very short one
+    for _ in range(10 if tier == "quick" else 120):
+        n, m = rng.randint(9, 13), rng.randint(1, 2)
+        if rng.random() < 0.5:
+            n, m = m, n
+        k = abs(n - m)                                   # at least k gap columns in a global alignment
+        # NoOverflow: every table cell (also the all-gap border and sub-optimal cells) must fit int32:
+        # (n + m) * max(|open|, |ext|) <= 2.0e9; the optimum itself lies below -2**30
+        ext = 200 * 10**7 // (n + m) - rng.randint(0, 10**7)
+        if k * ext < 112 * 10**7:
+            ext = 200 * 10**7 // (n + m)
+        opn = rng.choice([ext, ext // 2, ext - ext // 3, 3])
+        gap = [-ext] if rng.random() < 0.25 else [-opn, -ext]
+        c = {"kind": "opt", "mode": rng.choice("ggggsl"), "gap": gap, "a": [rng.randrange(2) for _ in range(n)],
+             "b": [rng.randrange(2) for _ in range(m)], "w1": "u8", "w2": "u8", "off1": 0, "off2": 0, "force": False,
+             "mform": "array", "alph2": "same", "M": rng.choice([[[1, -1], [-1, 1]], [[3, -2], [0, 2]], [[-4, -6], [-5, -4]]]),
+             "max": rng.choice([1, 5, 50]), "rs": []}
+        c["ops"] = _ops(c)
+        yield c
+    # alphabets that do / do not fit the matrix alphabet (prefix = fits; a run from the middle / a permutation = refused)
+    for _ in range(8 if tier == "quick" else 100):
+        size = rng.randint(4, 7)
+        lo = rng.randint(0, size - 2)
+        hi = rng.randint(lo + 1, size)
+        yield {"kind": "alphafit", "size": size, "lo": lo, "hi": hi, "letter": rng.random() < 0.6,
+               "which": rng.choice([1, 2]), "gap": _gap(rng), "mode": rng.choice("gsl"),
+               "M": _matrix(rng, size, size), "sa": [rng.randrange(hi - lo) for _ in range(rng.randint(1, 5))],
+               "sb": [rng.randrange(hi - lo) for _ in range(rng.randint(1, 5))], "max": 5}
     # argument refusals (hypothesis audit): positive penalties, max_number < 1 and >= 2**31, penalties beyond a C int
     pool_g = [[1], [5], [0], [-1], [-3], [1, -1], [-1, 1], [2, 2], [0, 0], [-2, -1], [-2**31], [-2**31 - 1],
               [-2**31 - 1, -1], [-1, -2**40], [-2**31, -1]]   # (-2**31, -2**31) makes neg_inf itself overflow: NoOverflow region
@@ -917,6 +946,14 @@ def corpus():
                          rs=[{"tp": 0, "trace": [[0, -1], [1, 0], [2, 1], [3, 2], [4, 3], [-1, 4], [5, -1]]}])
                 c["ops"] = _ops(c)
                 out.append(c)
+    # legal huge affine penalties: genuine partial scores below -2**30 (seeded C08-24: pseudo -inf hard-coded to int32.min // 2)
+    for mode in "gs":
+        c = dict(base, mode=mode, gap=[-100000000, -100000000], a=[0] * 13, b=[0], M=[[1, -1], [-1, 1]], max=5)
+        c["ops"] = _ops(c)
+        out.append(c)
+    c = dict(base, mode="g", gap=[-150000000, -90000000], a=[1, 0], b=[0, 1, 1, 0, 1, 0, 0, 1, 1, 0, 1, 0], M=[[3, -2], [0, 2]], max=5)
+    c["ops"] = _ops(c)
+    out.append(c)
     # width / alphabet combinations on one fixed input
     for w1, w2 in [("u8", "u16"), ("u16", "u8"), ("u32", "u64"), ("u64", "u32"), ("u16", "u16"), ("u8", "u32"), ("u64", "u64")]:
         c = dict(base, mode="g", gap=[-2, -1], a=[0, 1, 2, 1, 0], b=[1, 2, 2, 0], w1=w1, w2=w2, alph2="chr",
@@ -1334,6 +1371,31 @@ def _oracle_api(c):
                 v.append(("C08/state/score-modified-trace", "align.score changed Alignment.trace" + ctx))
         return v
     # ---- kind == "reuse": state across calls, refused calls, spellings, defaults
+    # the matrix must not alias the caller's array: int32 / int64 arrays and views of a larger buffer, written afterwards
+    al1, al2 = matrix.get_alphabet1(), matrix.get_alphabet2()
+    want_m = matrix.score_matrix().copy()
+    for dt in (np.int32, np.int64, np.int16):
+        for how in ("whole", "view", "transposed-view"):
+            buf = np.zeros((want_m.shape[0] + 2, want_m.shape[1] + 3), dtype=dt)
+            if how == "whole":
+                arr = np.array(want_m, dtype=dt); owner = arr
+            elif how == "view":
+                buf[1:1 + want_m.shape[0], 2:2 + want_m.shape[1]] = want_m
+                arr = buf[1:1 + want_m.shape[0], 2:2 + want_m.shape[1]]; owner = buf
+            else:
+                bt = np.zeros((want_m.shape[1], want_m.shape[0]), dtype=dt); bt[:, :] = want_m.T
+                arr = bt.T; owner = bt
+            m2 = align.SubstitutionMatrix(al1, al2, arr)
+            r_before = _norm(align.align_optimal(s1, s2, m2, **kw))
+            try:
+                owner += 3
+                owner[...] = owner[::-1]
+            except ValueError:
+                v.append(("C08/state/matrix-constructor-froze-the-callers-array", f"the caller's {dt.__name__} array ({how}) became read-only" + ctx))
+                continue
+            if not np.array_equal(m2.score_matrix(), want_m) or _norm(align.align_optimal(s1, s2, m2, **kw)) != r_before:
+                v.append(("C08/state/matrix-aliases-callers-array",
+                          f"writing to the caller's {dt.__name__} array ({how}) after construction changed the SubstitutionMatrix" + ctx))
     snap = (s1.code.copy(), s2.code.copy(), matrix.score_matrix().copy())
 
     def unchanged(what):
@@ -1502,8 +1564,47 @@ def _oracle_score_odd(c):
     return []
 
 
+def _oracle_alphafit(c):
+    """a sequence alphabet fits the matrix alphabet only if it is a PREFIX of it (codes keep their meaning); a run from
+    the middle must be refused, never aligned with shifted codes"""
+    import numpy as np
+    import biotite.sequence as seq
+    import biotite.sequence.align as align
+    size, lo, hi = c["size"], c["lo"], c["hi"]
+    letters = list("ACGTNRYWKM")[:size]
+    mk = (lambda syms: seq.LetterAlphabet(syms)) if c["letter"] else (lambda syms: seq.Alphabet(syms))
+    full, part = mk(letters), mk(letters[lo:hi])
+    matrix = align.SubstitutionMatrix(full, full, np.array(c["M"], dtype=np.int64))
+    def mkseq(al, codes):
+        t = seq.GeneralSequence(al)
+        t.code = np.array(codes, dtype=np.int64)
+        return t
+    sa, sb = c["sa"], c["sb"]
+    # the same symbols written over the full alphabet
+    fa, fb = mkseq(full, [x + lo for x in sa]), mkseq(full, [x + lo for x in sb])
+    pa, pb = (mkseq(part, sa), fb) if c["which"] == 1 else (fa, mkseq(part, sb))
+    kw = dict(gap_penalty=_pygap(c["gap"]), terminal_penalty=(c["mode"] != "s"), local=(c["mode"] == "l"), max_number=c["max"])
+    ref = _norm(align.align_optimal(fa, fb, matrix, **kw))
+    desc = f" [{'Letter' if c['letter'] else ''}Alphabet {letters[lo:hi]} against a matrix over {letters}, sequence {c['which']}, codes {sa}/{sb}, M={c['M']}, gap={c['gap']}, mode={c['mode']}]"
+    try:
+        got = _norm(align.align_optimal(pa, pb, matrix, **kw))
+    except ValueError:
+        got = None
+    if lo == 0:
+        if got is None:
+            return [("C08/refused/prefix-alphabet-refused", "an alphabet that is a prefix of the matrix alphabet was refused" + desc)]
+        if got != ref:
+            return [("C08/alphabet/prefix-alphabet-result-differs", f"result {got[0]} differs from the full-alphabet result {ref[0]}" + desc)]
+    elif got is not None:
+        return [("C08/refused/shifted-alphabet-accepted",
+                 f"accepted (score {got[0]}; with the symbols read correctly it is {ref[0]}): the codes no longer mean the same symbols" + desc)]
+    return []
+
+
 def _oracle_inner(case):
     c = case
+    if c.get("kind") == "alphafit":
+        return _oracle_alphafit(c)
     if c.get("kind") == "args":
         return _oracle_args(c)
     if c.get("kind") == "score-odd":
@@ -1677,7 +1778,7 @@ def oracle(case):
 
 
 def nontrivial(case, impl_out):
-    if case.get("kind") in ("stdmatrix", "args"):
+    if case.get("kind") in ("stdmatrix", "args", "alphafit"):
         return True
     if case.get("kind") == "overflow":
         return False
@@ -1688,6 +1789,8 @@ def nontrivial(case, impl_out):
 def signature(case):
     if case.get("kind") == "args":
         return "args|" + str(case["calls"])
+    if case.get("kind") == "alphafit":
+        return "alphafit|" + str([case[k] for k in ("size", "lo", "hi", "letter", "which", "gap", "mode", "M", "sa", "sb")])
     if case.get("kind") == "stdmatrix":
         return f"std|{case['db']}|{case['mode']}|{case['gap']}|{case['sa']}|{case['sb']}"
     return f"{case.get('kind')}|{case.get('mform')}|{case['mode']}|{case['gap']}|{case['a']}|{case['b']}|{case['M']}|{case['max']}"
@@ -1701,7 +1804,7 @@ def distribution(cases, impl_outs):
     for c, o in zip(cases, impl_outs):
         inc("kind", c.get("kind", "?"))
         inc("matrix_form", c.get("mform", c.get("db", "array")))
-        if c.get("kind") in ("stdmatrix", "args"):
+        if c.get("kind") in ("stdmatrix", "args", "alphafit"):
             continue
         inc("mode", c["mode"])
         inc("gap", "linear" if len(c["gap"]) == 1 else ("affine open<ext" if c["gap"][0] < c["gap"][1] else "affine"))
